@@ -14,7 +14,7 @@ var ErrInjected = errors.New("sim: injected fault")
 
 // Flavors of injected errors: what real destinations and sources return is not
 // always a plain error value. A fault plan names one of them.
-var Flavors = []string{"plain", "temporary", "eagain", "shortwrite", "unexpected-eof", "closed"}
+var Flavors = []string{"plain", "temporary", "eagain", "shortwrite", "unexpected-eof", "closed", "eof", "uncomparable"}
 
 // tempErr looks like a net.Error that asks to be retried.
 type tempErr struct{}
@@ -22,6 +22,12 @@ type tempErr struct{}
 func (tempErr) Error() string   { return "sim: injected fault (temporary, timeout)" }
 func (tempErr) Temporary() bool { return true }
 func (tempErr) Timeout() bool   { return true }
+
+// sliceErr is an error whose dynamic type is not comparable (like an aggregate
+// of errors used by value): `err == other` panics at run time for it.
+type sliceErr []error
+
+func (e sliceErr) Error() string { return "sim: injected fault (aggregate of errors)" }
 
 // ErrFor returns the error value of a flavor.
 func ErrFor(flavor string) error {
@@ -36,6 +42,10 @@ func ErrFor(flavor string) error {
 		return io.ErrUnexpectedEOF
 	case "closed":
 		return os.ErrClosed
+	case "eof":
+		return io.EOF // a destination or source may fail with exactly this value (a pipe whose other end was closed with it)
+	case "uncomparable":
+		return sliceErr{ErrInjected}
 	}
 	return ErrInjected
 }
